@@ -4,6 +4,9 @@ Cases == ndJsonDeserialize(IOEnv.CASES)
 Obs   == ndJsonDeserialize(IOEnv.OBS)
 Why(c, o) ==
     IF o.err # "" THEN "raised-" \o o.err
+    ELSE IF c.op = "reverse_path" THEN
+         LET w == ReverseWhy(c.P, c.attr, c.i, o.map, o.rpid, o.rattr) IN
+         IF w # "" THEN w ELSE IF o.srcchanged # 0 THEN "input-modified" ELSE ""
     ELSE IF c.op = "redirect" THEN
          LET w == RedirectWhy(c.P, c.attr, c.i, c.sort, o.map, o.rpid, o.rattr) IN
          IF w # "" THEN w ELSE IF o.srcchanged # 0 THEN "input-modified" ELSE IF o.idsok # 1 THEN "ids-not-positions" ELSE ""
